@@ -4,6 +4,7 @@ import PpciVerif.Proofs.Reloc
 import PpciVerif.Proofs.RelocRv2
 import PpciVerif.Proofs.RelocX86
 import PpciVerif.Proofs.RelocThumb
+import PpciVerif.Proofs.RelocArm
 /-! One lemma for all proved relocation types: a successful `apply` under `resolvable` designates `target`. -/
 namespace Proofs.Reloc
 open Model.Reloc Model.LinkReloc Spec.RelocSem Spec.LinkGuard
@@ -35,6 +36,9 @@ theorem apply_resolves {isa ty : String} {A S P : Int} {data out : List Nat}
   · simp only [relocSize, Option.some.injEq] at hsz
     simp only [Model.Reloc.apply, Option.some.injEq] at hap
     simp only [decodeTarget]; rw [imm24_target hsz.symm hap hg]; simp [target]
+  · simp only [relocSize, Option.some.injEq] at hsz
+    simp only [Model.Reloc.apply, Option.some.injEq] at hap
+    simp only [decodeTarget]; rw [ldrImm12_target hsz.symm hb hg.1 hg.2 hap]; simp [target]
   · simp only [relocSize, Option.some.injEq] at hsz
     simp only [Model.Reloc.apply, Option.some.injEq] at hap
     simp only [decodeTarget]; rw [wrapNew11_target hsz.symm hb hg hap]; simp [target]
